@@ -10,7 +10,8 @@ LEVEL = "exploration"
 RULE = ("Hypothesis cases: two groups of 1-4 simple integer-grid polygons (star-shaped, histogram, comb, convex, rectangle, "
         "triangle; either orientation; vertices snapped to a coarse sub-lattice with high probability to force shared "
         "edges/vertices/collinear overlaps/nesting), polygon size from 64 to 2^45 grid units, centre offsets to 2^48, "
-        "scaling from {1,10,1e3,1e6}; optionally the first operand is the output of an earlier operation (keyholes). All "
+        "scaling from {1,10,1e3,1e6}; in two cases of five a small polygon is put inside the first polygon of A, at its centre or "
+        "next to one of its convex corners (inside a tooth or tip: holes in separately swept lobes); optionally the first operand is the output of an earlier operation (keyholes). All "
         "four operations are run; oracle = exact winding-number membership at deliberately placed sample points that are "
         ">= 2 grid units from every input edge (in_result == op(in_A, in_B)), no point covered by two output polygons or "
         "with |winding| > 1, and the area identities within perimeter x 1 grid unit. Non-trivial: bounding boxes "
@@ -38,13 +39,27 @@ def case_strategy(draw):
         return g
     A = group(draw(st.integers(1, 4)))
     B = group(draw(st.integers(1, 4)))
-    nested = draw(st.integers(0, 3)) == 0
-    if nested:
+    nmode = draw(st.integers(0, 4))
+    nested = nmode <= 1
+    if nmode == 0:
         # put a small polygon strictly inside the first polygon of A (hole-producing configurations)
         bb = gk.bbox([A[0]])
         cx, cy = (bb[0] + bb[2]) // 2, (bb[1] + bb[3]) // 2
         s = max(4, min(bb[2] - bb[0], bb[3] - bb[1]) // 8)
         B[0] = draw(gk.simple_polygon(size=s, snap=max(1, snap // 8), center=(cx, cy)))
+    elif nmode == 1:
+        # ... or inside one of its lobes (a tooth of a comb, a tip of a star): a small rectangle next to a convex corner, so that
+        # the hole lies in a part of the outline that the sweep meets as a separate local extremum
+        P = A[0]
+        i = draw(st.integers(0, len(P) - 1))
+        a, v, b = P[i - 1], P[i], P[(i + 1) % len(P)]
+        cx, cy = (a[0] + v[0] + b[0]) // 3, (a[1] + v[1] + b[1]) // 3
+        s = max(1, int(min(math.hypot(a[0] - v[0], a[1] - v[1]), math.hypot(b[0] - v[0], b[1] - v[1])) // 8))
+        rect = [[cx - s, cy - s], [cx + s, cy - s], [cx + s, cy + s], [cx - s, cy + s]]
+        if all(gk.winding([tuple(q) for q in P], x, y) != 0 and gk.far_from_edges(x, y, gk.edges_of([[tuple(q) for q in P]]), 1) for x, y in rect):
+            B[0] = rect
+        else:
+            nested = False
     empty = draw(st.integers(0, 11))
     if empty == 0 and not nested:
         A = []          # an empty operand is the empty set: OR/XOR give the other group, AND/NOT nothing (or A itself)
